@@ -257,6 +257,26 @@ class FnExec:
         for k, e in enumerate(els): arr = z3.Store(arr, k, e.z)
         return Val(t, t.make(z3.IntVal(len(els)), arr))
 
+    def e_ListComp(self, n, st, pc):
+        """[elt for x in seq]  (one generator, no filter): out[q] == elt(seq[q]) for every q; the element expression must not raise"""
+        if len(n.generators) != 1 or n.generators[0].ifs or n.generators[0].is_async: raise Unsupported(f"comprehension with filters / several generators at line {n.lineno}")
+        g = n.generators[0]
+        seq = self.expr(g.iter, st, pc)
+        if not isinstance(seq.t, ListT): raise Unsupported(f"comprehension over {seq.t!r}")
+        q = fresh_int("cq"); rng = z3.And(0 <= q, q < seq.t.len(seq.z))
+        s2 = st.copy(); self.assign(g.target, Val(seq.t.elem, seq.t.at(seq.z, q)), s2, [])
+        pcq = list(pc) + [rng]; base = len(pcq); saved = self.pending_exc; self.pending_exc = []
+        try: v = self.expr(n.elt, s2, pcq)
+        finally: mine = self.pending_exc; self.pending_exc = saved
+        for epc, exc, node in mine:
+            self.oblige(f"safe.comprehension({exc})@{getattr(node, 'lineno', n.lineno)}", "safe.comprehension", list(pc), z3.ForAll([q], z3.Implies(z3.And(rng, *epc[base:-1]), z3.Not(epc[-1]))), node)
+        extra = [c for c in pcq[base:] if not any(c.eq(z3.Not(e[0][-1])) for e in mine)]
+        if extra: raise Unsupported(f"comprehension element introduces side conditions (line {n.lineno})")
+        out = fresh(ListT(v.t), "comp")
+        pc.append(out.t.len(out.z) == seq.t.len(seq.z)); pc.extend(wf(out))
+        pc.append(z3.ForAll([q], z3.Implies(rng, out.t.at(out.z, q) == v.z), patterns=[out.t.at(out.z, q)]))
+        return out
+
     # ------------------------------------------------------------------ calls
     def e_Call(self, n, st, pc):
         f = n.func
